@@ -12,7 +12,7 @@
    ac_keep c r s t st tr    : tr is accepted from st and (r, s, t) stays registered throughout;
                               the result carries the number of OpChange r in tr. *)
 From LibcoapV Require Import Base.Tactics Observe.Observe Observe.Accept Observe.ObserveProofs
-  Observe.SimProofs Observe.AcceptProofs Observe.Witness.
+  Observe.SimProofs Observe.AcceptProofs Observe.Witness Observe.ModelCorollaries Observe.RefProofs.
 Local Open Scope Z_scope.
 
 (* ---------------------------------------------------------------- the model *)
@@ -34,6 +34,46 @@ Theorem C11_model_accepted : forall p modes ops,
              (snd (ob_run p (ob_init modes) ops)) = true.
 Proof. exact ob_model_accepted. Qed.
 Print Assumptions C11_model_accepted.
+
+(* the session stays alive while it has observers: the references held through subscriptions
+   (taken in coap_add_observer, released on every path that frees a subscription) equal the number
+   of the session's subscriptions in every reachable state, so they are positive while it has one
+   (coap_io_prepare_io reclaims only sessions with ref = 0; the tie compares session->ref) *)
+Theorem C11_session_pinned : forall p modes ops s st,
+  st = fst (ob_run p (ob_init modes) ops) ->
+  (ob_ca_get (st_ref st) s = ob_count_sess s (st_res st)) /\
+  (forall r x, In r (st_res st) -> In x (rs_subs r) -> sb_sess x = s -> 0 < ob_ca_get (st_ref st) s).
+Proof. exact ob_session_pinned. Qed.
+Print Assumptions C11_session_pinned.
+
+(* in the model's own terms: after Observe:1 / session loss / resource deletion nothing (no
+   notification, error response, 4.04) is sent to the observer until it registers again *)
+Theorem C11_model_silent_after_cancel : forall p modes pre mid r s t o,
+  0 <= pr_max_non p -> pr_max_fail p <= 1 ->
+  (forall op, In op mid -> ~ ob_is_register r s t op) ->
+  forall e out,
+    In e (snd (ob_run p (fst (ob_run p (ob_init modes) (pre ++ [OpCancel r s t o]))) mid)) -> In out (snd e) ->
+    ac_out_key out <> Some (r, s, t).
+Proof. exact ob_model_silent_after_cancel. Qed.
+Print Assumptions C11_model_silent_after_cancel.
+
+Theorem C11_model_silent_after_session_lost : forall p modes pre mid r s t,
+  0 <= pr_max_non p -> pr_max_fail p <= 1 ->
+  (forall op, In op mid -> ~ ob_is_register r s t op) ->
+  forall e out,
+    In e (snd (ob_run p (fst (ob_run p (ob_init modes) (pre ++ [OpSessionLost s]))) mid)) -> In out (snd e) ->
+    ac_out_key out <> Some (r, s, t).
+Proof. exact ob_model_silent_after_session_lost. Qed.
+Print Assumptions C11_model_silent_after_session_lost.
+
+Theorem C11_model_silent_after_delete : forall p modes pre mid r s t ca,
+  0 <= pr_max_non p -> pr_max_fail p <= 1 ->
+  (forall op, In op mid -> ~ ob_is_register r s t op) ->
+  forall e out,
+    In e (snd (ob_run p (fst (ob_run p (ob_init modes) (pre ++ [OpDeleteResource r ca]))) mid)) -> In out (snd e) ->
+    ac_out_key out <> Some (r, s, t).
+Proof. exact ob_model_silent_after_delete. Qed.
+Print Assumptions C11_model_silent_after_delete.
 
 (* ---------------------------------------------------------------- no notification after de-registration *)
 
